@@ -306,6 +306,42 @@ pub fn run(prop: &'static str, tier: &str) -> i32 {
                 y += 37;
             }
         }
+        // the default rules must not depend on what else the parser was asked to check: 1..3 additional,
+        // satisfied expectations on unrelated claims (aud, iss, a custom one)
+        {
+            let key = key_for(*p);
+            let seed = if p.is_local() { domains::seeds(*p)[0].clone() } else { vec![] };
+            let extras = [("aud", "api"), ("iss", "idp"), ("role", "admin")];
+            for n_extra in 1..=extras.len() {
+                for (c2, value, want_ok) in [("exp", "1999-01-01T00:00:00Z", false), ("exp", "2999-01-01T00:00:00Z", true), ("nbf", "2999-01-01T00:00:00Z", false), ("nbf", "1999-01-01T00:00:00Z", true), ("exp", "12345", false), ("nbf", "soon", false)] {
+                    let vjson = if value == "12345" { value.to_string() } else { format!("\"{}\"", value) };
+                    let payload = format!("{{\"{}\":{},\"aud\":\"api\",\"iss\":\"idp\",\"role\":\"admin\"}}", c2, vjson);
+                    let Out::Ok(tok) = adapter::core_issue(*p, &key.sk, &seed, &payload, None, None) else { continue };
+                    let mut ops: Vec<POp> = extras[..n_extra].iter().map(|(k, v)| POp::Check(adapter::ClaimSpec::auto(k, json!(v)))).collect();
+                    ops.push(POp::Parse(0, 0));
+                    adapter::set_clock(Some(time::OffsetDateTime::from_unix_timestamp_nanos(now).unwrap()));
+                    let ev = adapter::parse_history(*p, Layer::Prelude, true, &[key.pk.clone()], &[tok], &ops);
+                    adapter::freeze_default_clock();
+                    acc.executions += 1;
+                    acc.impl_calls += 1;
+                    acc.choice_points += 1;
+                    if let Some(PEvent::Parsed(o, _)) = ev.last() {
+                        if o.is_ok() == want_ok {
+                            acc.bump("with-extra-expectations:conforms");
+                            if want_ok {
+                                acc.controls_ok += 1;
+                            }
+                        } else {
+                            acc.violate(
+                                format!("{}|{}|with-{}-extra-expectations|{}", prop, p.name(), n_extra, if want_ok { "rejected-valid" } else { "accepted" }),
+                                format!("PasetoParser::default() with {} additional satisfied check_claim expectation(s): payload {} -> {}, expected {}", n_extra, payload, o.short(), if want_ok { "Ok" } else { "a rejection" }),
+                                json!({"time_case": TimeCase { proto: *p, now_ns: Some(now.to_string()), payload }, "extra_expectations": n_extra}),
+                            );
+                        }
+                    }
+                }
+            }
+        }
         // one parser object while the clock moves: a verdict that depends on the clock must be recomputed
         {
             let key = key_for(*p);
